@@ -11,6 +11,8 @@ same verdict for both spellings (benign-edit robustness; see DESIGN 10.3d):
   a < b <= c                   ->  a < b and b <= c     (when the shared operand is a name, attribute chain or constant: evaluated twice = once)
   if c: A else: B              ->  if c: A ; B          (when exactly one branch ends in return/raise/continue/break: guard-clause form, the
                                                         terminating branch first, test negated if needed; elif chains are left alone)
+  0 < x ;  "general" == name   ->  x > 0 ;  name == "general"   (single ordering / equality test whose left operand only is constant-like)
+  else: (if t: raise) ; B      ->  elif not t: B  else: raise   (a guard clause that opens the else block of an elif arm is the last arm of the chain)
   dict() / list() / tuple()    ->  {} / [] / ()         (no arguments; only when the builtin name is not rebound in the module)
 
 Line numbers of the rewritten nodes are those of the original construct, so reports still point at the source.
@@ -42,6 +44,25 @@ def _rebound(tree: ast.AST) -> Set[str]:
 
 def defines_ne(tree: ast.AST) -> bool:
     return any(isinstance(n, ast.FunctionDef) and n.name == "__ne__" for n in ast.walk(tree))
+
+
+_MIRROR = {ast.Lt: ast.Gt, ast.Gt: ast.Lt, ast.LtE: ast.GtE, ast.GtE: ast.LtE, ast.Eq: ast.Eq, ast.NotEq: ast.NotEq}
+
+
+def _constant_like(e: ast.expr) -> bool:
+    """A literal, a signed literal, an ALL_CAPS name (ZERO, MAX_DATE) or an attribute chain rooted in a capitalised name (Keyword.GENERAL.value, EntrySetType.IN)."""
+    if isinstance(e, ast.Constant):
+        return True
+    if isinstance(e, ast.UnaryOp) and isinstance(e.op, (ast.USub, ast.UAdd)):
+        return isinstance(e.operand, ast.Constant)
+    if isinstance(e, ast.Name):
+        return e.id.isupper()
+    if isinstance(e, ast.Attribute):
+        root = e
+        while isinstance(root, ast.Attribute):
+            root = root.value
+        return isinstance(root, ast.Name) and root.id[:1].isupper() and root.id not in ("self", "cls")
+    return False
 
 
 def _simple(e: ast.expr) -> bool:
@@ -97,6 +118,9 @@ class _Canon(ast.NodeTransformer):
                 parts.append(ast.copy_location(ast.Compare(left=left, ops=[op], comparators=[right]), node))
                 left = right
             return ast.copy_location(ast.BoolOp(op=ast.And(), values=parts), node)
+        if len(node.ops) == 1 and type(node.ops[0]) in _MIRROR and _constant_like(node.left) and not _constant_like(node.comparators[0]):
+            # the constant operand of an ordering / equality test is written on the right:  0 < x  ->  x > 0,  "general" == name  ->  name == "general"
+            return ast.copy_location(ast.Compare(left=node.comparators[0], ops=[_MIRROR[type(node.ops[0])]()], comparators=[node.left]), node)
         return node
 
     def visit_Call(self, node: ast.Call) -> ast.AST:
@@ -125,6 +149,16 @@ def _guard_clauses(tree: ast.AST) -> None:
     """`if c: A else: B` where exactly one branch ends in return / raise / continue / break is written as the guard clause
     `if <c or not c>: <terminating branch>` followed by the other branch (plain if/else only, no elif chain)."""
     changed = False
+    in_chain = {id(p.orelse[0]) for p in ast.walk(tree) if isinstance(p, ast.If) and len(p.orelse) == 1 and isinstance(p.orelse[0], ast.If)}
+    for node in list(ast.walk(tree)):
+        # the last arm of a chain written as a guard clause inside the else block is the elif/else spelling:
+        #   else: (if t: <terminates>) ; B...   ->   elif not t: B...  else: <terminates>
+        # (only for an arm of an elif chain: the two branches of a plain if/else may be written in either order, which sa/alpha.py settles later)
+        if isinstance(node, ast.If) and id(node) in in_chain and len(node.orelse) >= 2 and isinstance(node.orelse[0], ast.If) and not node.orelse[0].orelse and _terminates(node.orelse[0].body):
+            g = node.orelse[0]
+            arm = ast.copy_location(ast.If(test=_negated(g.test), body=node.orelse[1:], orelse=g.body), g)
+            node.orelse = [arm]
+            changed = True
     for node in list(ast.walk(tree)):
         for fname in ("body", "orelse", "finalbody"):
             block = getattr(node, fname, None)
